@@ -119,6 +119,12 @@ def rule_r2(ctx):
                 ok, why = False, "changes the number/order of graph outputs"
             else:
                 ok = f.key in allowed
+                if not ok:
+                    # a private helper that exists only as a part of its callers (all its calls are expanded by the normal
+                    # form) acts on their behalf; the same statement is examined inside each of them
+                    tc = ctx.repo.transparent_callers(f)
+                    ok = tc is not None and all(k in allowed or ctx.repo.transparent_callers(ctx.repo.find_func(k)) is not None
+                                                for k in tc if ctx.repo.find_func(k) is not None and ctx.repo.find_func(k).parent is None)
                 why = "changes the number of graph inputs outside the initializer/input conversion passes"
             ctx.check("R2", f"{f.local}: {norm(c)[:60]}", ok, f, c,
                       f"a pass {why}: positional correspondence of the model's interface is lost",
